@@ -269,7 +269,11 @@ pub fn run_history_on(vd: &VerifDirectory, existing: Option<Index>, ops: &[Op], 
                 }
                 Op::Rollback => {
                     let r = w.rollback();
-                    if obs!(i, "rollback", r) { working = committed.clone(); } else { failed = true; }
+                    if obs!(i, "rollback", r) {
+                        working = committed.clone();
+                        // rollback() rebuilds the writer with the DEFAULT merge policy: install the history's policy again
+                        set_policy(w, &Cfg { merge_policy: policy, ..cfg.clone() });
+                    } else { failed = true; }
                 }
                 Op::MergeAll => {
                     let ids_r = index.searchable_segment_ids();
@@ -296,7 +300,7 @@ pub fn run_history_on(vd: &VerifDirectory, existing: Option<Index>, ops: &[Op], 
                 Op::PrepareAbort => {
                     // abort() is a rollback: the writer goes back to the last commit
                     let r = w.prepare_commit().and_then(|pc| pc.abort());
-                    if obs!(i, "prepare_commit_abort", r) { working = committed.clone(); } else { failed = true; }
+                    if obs!(i, "prepare_commit_abort", r) { working = committed.clone(); set_policy(w, &Cfg { merge_policy: policy, ..cfg.clone() }); } else { failed = true; }
                 }
                 Op::Reopen | Op::WaitMerges => {}
             }
@@ -319,7 +323,7 @@ pub fn run_history_on(vd: &VerifDirectory, existing: Option<Index>, ops: &[Op], 
                 if let Some(w) = writer.as_mut() {
                     let r = guarded(|| w.rollback());
                     match r {
-                        Ok(r) => { if !obs!(i, "rollback_after_error", r) { drop(writer.take()); } }
+                        Ok(r) => { if !obs!(i, "rollback_after_error", r) { drop(writer.take()); } else { set_policy(w, &Cfg { merge_policy: policy, ..cfg.clone() }); } }
                         Err(p) => { res.panicked = Some(format!("rollback after error: {p}")); break; }
                     }
                 }
